@@ -607,6 +607,26 @@ def build(repo, trace):
             raise ExtractError('struct EvalConfig: field tile_sizes changed')
         i, j, k = rsx.find_fn(pix, 'render', 0, None)
         f_render = build_render(pix[rsx.line_start(pix, i):k], trace)
+        # Scratch::new, Worker::new: what establishes the scratch sizes the recursion relies on
+        a3, b3 = rsx.impl_block(pix, r'^impl Scratch\b', 'impl Scratch')
+        i3, j3, k3 = rsx.find_fn(pix, 'new', a3, b3)
+        f_sn = pix[rsx.line_start(pix, i3):k3]
+        f_sn, n3 = re.subn(r'vec!\[0\.0; (\w+)\]', r'vec_f32(0.0, \1)', f_sn)
+        if n3 < 1:
+            raise ExtractError('Scratch::new: R-vecmacro sites changed')
+        trace.fire('R-vecmacro', n3)
+        a3, b3 = rsx.impl_block(pix, r"^impl<'a, F: Function> RenderWorker<'a, F> for Worker<'a, F>", 'impl RenderWorker for Worker')
+        i3, j3, k3 = rsx.find_fn(pix, 'new', a3, b3)
+        f_wn = pix[rsx.line_start(pix, i3):k3]
+        f_wn = sub_once(f_wn, "cfg: &'a Self::Config,", "cfg: &'a RenderConfig,   // type Config = RenderConfig", 'Worker::new')
+        f_wn, n3 = re.subn(r'(\w+)\[\(2, 2\)\] = ([^;]+);', r'\1.set22(\2);   // R-matset', f_wn)
+        trace.fire('R-matset', n3)
+        f_wn, n3 = re.subn(r'(tile_sizes\.last\(\))\.pow\(2\)', r'pow2(\1)', f_wn)
+        trace.fire('R-pow', n3)
+        f_wn = f_wn.replace('vec![]', 'Vec::new()')
+        f_wn = sub_once(f_wn, ') -> Self {', ") -> Worker<'a, F> {", 'Worker::new')
+        f_render += '\nimpl Scratch {\n' + f_sn + '\n}\n\n' + "impl<'a, F: Function> Worker<'a, F> {\n" + f_wn + '\n}\n'
+        trace.items += [(PIX_RS, 'Scratch::new'), (PIX_RS, 'Worker::new (trait method of RenderWorker, as an inherent function: R-traitfn)')]
         trace.items += [(LIB_RS, 'trait RenderSize, impl RenderSize for pixel::RenderSize, struct Image'), (PIX_RS, 'struct RenderConfig, impl RenderSize for RenderConfig, render')]
         asm = open(os.path.join(HERE, 'static_asm.rs')).read().replace('/*@RENDERCONFIG@*/', rc + '\n' + rc_impl)
     except ExtractError as e:
@@ -638,6 +658,15 @@ def build(repo, trace):
     inj.spec('GenericImage::height', 'r: usize', '\n        ensures r == self.size.h_()\n')
     inj.spec('GenericImage::decode_position', 'r: usize', '\n        requires pos.0 < self.size.h_(), pos.1 < self.size.w_(), self.size.h_() * self.size.w_() <= usize::MAX   // the two assertions of the function\n        ensures r == pos.0 * self.size.w_() + pos.1\n')
     inj.proof('GenericImage::decode_position', 're:assert!\\(col < self\\.width\\(\\)\\);', '        proof { assert(row * self.size.w_() + col < self.size.h_() * self.size.w_()) by (nonlinear_arith) requires row < self.size.h_(), col < self.size.w_(); }')
+    if f_render and 'impl Scratch' in f_render:
+        inj.spec('Scratch::new', 'r: Self', '\n        ensures r.x@.len() == size, r.y@.len() == size, r.z@.len() == size\n')
+        inj.spec('Worker::new', "r: Worker<'a, F>", '\n        requires tile_sizes.wf()\n        // what render_tile_recurse / render_tile_pixels require of the scratch arrays\n        ensures r.tile_sizes == tile_sizes, r.z == cfg.z, r.pixel_perfect == cfg.pixel_perfect,\n            r.scratch.x@.len() == tile_sizes.0@[tile_sizes.0@.len() - 1] * tile_sizes.0@[tile_sizes.0@.len() - 1], r.scratch.y@.len() == r.scratch.x@.len(), r.scratch.z@.len() == r.scratch.x@.len()\n')
+        inj.proof('Worker::new', '$START', '''        proof {
+            let l_ = tile_sizes.0@.len() - 1;
+            lemma_sizes_desc(tile_sizes.0@, 0, l_);
+            let n_ = tile_sizes.0@[l_] as int; let t_ = tile_sizes.0@[0] as int;
+            assert(n_ * n_ <= 16777216) by (nonlinear_arith) requires 0 <= n_ <= t_, t_ * t_ <= 16777216;
+        }''')
     inj.spec('GenericImage::new', 'r: Self', '\n        requires size.w_() * size.h_() <= usize::MAX\n        ensures r.size == size, r.data@.len() == size.w_() * size.h_()\n')
     inj.spec('Tile::new', 'r: Tile<N>', '\n        ensures r.corner == corner\n')
     inj.spec('Tile::add', 'r: Point2<usize>', '\n        requires self.corner.x + pos.x <= usize::MAX, self.corner.y + pos.y <= usize::MAX\n        ensures r.x == self.corner.x + pos.x, r.y == self.corner.y + pos.y\n')
@@ -651,6 +680,9 @@ def build(repo, trace):
     for f in ('Tile::new', 'Tile::add', 'TileSizesRef::index', 'TileSizesRef::get', 'TileSizesRef::pixel_offset'):
         obls.append(Obligation('raster::' + f, 'raster', f, props=PROPS))
     obls.append(Obligation('raster::render', 'raster', 'render', props=PROPS, note='assembly of the root tiles into the image; render_tiles is a stand-in'))
+    if f_render and 'impl Scratch' in f_render:
+        for f in ('Scratch::new', 'Worker::new'):
+            obls.append(Obligation('raster::' + f, 'raster', f, props=PROPS, note='establishes the scratch sizes the tile recursion requires'))
     for f in ('GenericImage::width', 'GenericImage::height', 'GenericImage::decode_position', 'GenericImage::new'):
         obls.append(Obligation('raster::' + f.replace('GenericImage', 'Image'), 'raster', f, props=PROPS))
     for l in ('lemma_suffix_wf', 'lemma_root_off'):
